@@ -2189,7 +2189,8 @@ if __name__ == "__main__" and len(sys.argv) > 1 and sys.argv[1] == "worker":
     failed = []
     oid = None
     for _ in range(_rounds):
-        staging, _meta, obj = build(odb, os.path.join(_root, f"w{_i}"), localfs, "md5", **_kw)
+        # odd-numbered writers spell their source directory with a trailing separator (a legitimate spelling)
+        staging, _meta, obj = build(odb, os.path.join(_root, f"w{_i}") + (os.sep if _i % 2 else ""), localfs, "md5", **_kw)
         res = transfer(staging, odb, {obj.hash_info}, shallow=False)
         oid = obj.oid
         failed += sorted(h.value for h in res.failed)
